@@ -455,3 +455,6 @@ Definition np_where (m : list bool) : list nat := filter (fun i => nth i m false
 Definition np_zero_at {A} (z : A) (a : list A) (pos : list nat) : list A := fold_left (fun a i => set_nth i z a) pos a.
 (* np.clip(x, C, hi) with C = 1.0 / np.sqrt(..) *)
 Definition np_clip_isq (orc : oracle) (x : Qc) (lo : isqrt) (hi : Qc) : Qc := qclip (isq_value orc lo) hi x.
+(* the sweep for an arbitrary behaviour [step] of the block methods ([run_blocks g d orc] is [run_blocks_with (step_prog g d orc)]) *)
+Definition run_blocks_with (step : blk -> st -> prog) (bs : list blk) (s : st) : prog :=
+  fold_left (fun p b => bind p (step b)) bs (Ret s).
